@@ -44,7 +44,7 @@ LAZY_OK = ("fixed", "ctx", "prefixed")
 
 
 @st.composite
-def member_lists(draw, for_lazy_wrapper=False, min_size=1, max_size=6, up=False):
+def member_lists(draw, for_lazy_wrapper=False, min_size=1, max_size=6, up=False, dup_names=False):
     n = draw(st.integers(min_size, max_size))
     members = []
     kinds = []
@@ -54,7 +54,10 @@ def member_lists(draw, for_lazy_wrapper=False, min_size=1, max_size=6, up=False)
         # anonymous members: constants usually, any other kind now and then (an unnamed member is measured through its own
         # _actualsize, a named one through Renamed)
         anonymous = (spec[0] == "const" and draw(st.booleans())) or (not for_lazy_wrapper and draw(st.integers(0, 5)) == 0)
-        members.append([None if anonymous else "m%d" % i, spec])
+        name = "m%d" % i
+        if i and dup_names and draw(st.integers(0, 7)) == 0:
+            name = "m%d" % draw(st.integers(0, i - 1))     # a repeated member name ("reserved", "pad"): a name refers to the LAST member that carries it
+        members.append([None if anonymous else name, spec])
         kinds.append(kind)
     return members, kinds
 
@@ -78,7 +81,7 @@ def at_offset(con, data, start, params):
 
 
 def member_names(members):
-    return [n for n, _ in members if n]
+    return list(dict.fromkeys(n for n, _ in members if n))      # (a repeated name is one key, at the place of its first occurrence)
 
 
 def struct_oracle(ctx):
@@ -198,7 +201,7 @@ def histories(draw, names, arrays=False, count=0):
 @st.composite
 def struct_cases(draw):
     want_nested = draw(st.booleans())
-    members, kinds = draw(member_lists(up=want_nested))
+    members, kinds = draw(member_lists(up=want_nested, dup_names=True))
     params = dict(n=draw(st.integers(0, 4)))
     spec = ["struct", members]
     data = build_input(draw, spec, dict(params, pre=1))     # (the parent's "pre" member will hold 1)
